@@ -15,7 +15,7 @@ PROP = dict(
          '2^31-1 and 11-digit values, DCS macros/hex macros/sixel/font payloads, OSC palette/hyperlinks, APS, ANSI music, '
          'emulation-specific lead-ins, raw bytes) for all 13 emulation configurations, screens 1..132 x 1..60; '
          'evaluations = characters fed; distinct_nontrivial = distinct streams; every stream is additionally compared '
-         'with the model; exhaustive streams of length <= 3 (quick) over each byte-oriented emulation\'s control alphabet',
+         'with the model; exhaustive streams of length <= 2 (quick; 3 thorough) over each byte-oriented emulation\'s control alphabet',
     modelled='all ten emulations: Avatar / PCBoard / Ctrl-A / Renegade wrappers in front of the ANSI parser (Model/TermWrap, '
              'no_panic_wrapped_partial), ASCII / ATASCII / PETSCII / Viewdata / Mode 7 (Model/TermOther, no_panic_bytes_partial); '
              'ANSI parser control flow (ESC/CSI/DCS/OSC/APS/music framing, macro definition incl. hex macros, macro '
